@@ -149,7 +149,7 @@ def _find(nodes, name):
 
 def gen_graph(rng, gname, max_nodes=8, shapes=None, allow_cond=True):
     shapes = shapes or ["single", "chain", "fork", "join", "diamond", "random", "random",
-                        "cond", "cond", "cond_nested", "multi_cond", "cond_dag"]
+                        "cond", "cond", "cond_nested", "multi_cond", "cond_dag", "cond_open", "cond_empty"]
     if not allow_cond:
         shapes = [s for s in shapes if not s.startswith("cond") and s != "multi_cond"]
     if max_nodes <= 5:
@@ -180,6 +180,24 @@ def gen_graph(rng, gname, max_nodes=8, shapes=None, allow_cond=True):
             _find(nodes, a)["children"].append(d)  # skip edge
     elif shape == "random":
         nodes = _random_dag(rng, [namer() for _ in range(rng.randint(3, max_nodes))])
+    elif shape == "cond_open":
+        # a conditional whose branches never re-join: no terminal task, every branch ends in a sink of its own
+        c = namer() + "c"
+        nb = rng.choice([2, 2, 3])
+        probs = rng.choice(PROB_SETS[nb])
+        nodes, kids = [], []
+        blk = {"cond": c, "terminal": None, "branches": [], "open": True}
+        for b in range(nb):
+            chain = [namer() for _ in range(rng.randint(1, 3))]
+            nodes += _chain(chain)
+            _find(nodes, chain[0])["probability"] = probs[b]
+            kids.append(chain[0])
+            blk["branches"].append({"entry": chain[0], "exit": chain[-1], "nodes": list(chain)})
+        nodes.insert(0, _node(c, kids, conditional=True))
+        if rng.random() < 0.6:
+            pre = namer()
+            nodes.insert(0, _node(pre, [c]))
+        blocks.append(blk)
     else:
         budget = [max_nodes + (4 if max_nodes > 5 else 0)]
         depth = 1 if shape == "cond_nested" else 0
@@ -200,7 +218,7 @@ def gen_graph(rng, gname, max_nodes=8, shapes=None, allow_cond=True):
                 nm = _Namer(prefix)
                 nodes2, cin2, cout2 = _cond_block(rng, nm, 1 if rng.random() < 0.25 else 0, [6], blocks=blocks)
                 prev = _find(nodes, cout)
-                if prev.get("terminal") and not prev.get("children") and rng.random() < 0.35:
+                if prev.get("terminal") and not prev.get("children") and rng.random() < 0.5:
                     # the join of the previous conditional IS the next conditional (one node, both flags)
                     head = _find(nodes2, cin2)
                     nodes2.remove(head)
@@ -435,12 +453,14 @@ def gen_clockwork_world(seed, index, **over):
             graphs.append({"name": f"G{len(graphs)}", "graph": [], "shape": "single", "blocks": []})
         for g, gd in enumerate(graphs):
             gd["release_policy"] = "fixed"
-            gd["period"] = 0
+            # all at once, or (own draws, later additions) a trickle / a second burst that arrives while the first is planned
+            gd["period"] = burst.choice([0, 0, 2])
             gd["invocations"] = burst.randint(3, 4) if len(profiles) == 1 else 3
-            gd["start"] = 0
+            gd["start"] = 0 if g == 0 else burst.choice([0, 3, 6])
             gd.pop("rate", None)
             gd.pop("concurrency", None)
-            gd["deadline_variance"] = [300, 300]
+            # equal deadlines, or (half of the worlds) deadlines that differ between the requests of one burst
+            gd["deadline_variance"] = burst.choice([[300, 300], [100, 400], [20, 150], [20, 150]])
             gd["graph"] = [_node("n1", work_profile=profiles[g]["name"])]
         for prof in profiles:
             if all(e["batch_size"] == 1 for e in prof["execution_strategies"]):
